@@ -153,6 +153,19 @@ func runC03Seq(src sim.Source, o Opts, res *Result) {
 				res.fail("C03/snapshot-changed", "%s snapshot taken %s changed after %s: %s (history %v)", sn.kind, sn.taken, where, d, history)
 				return
 			}
+			// what is derived from a frozen view later on is that view: a Snapshot() of a read-only transaction (or of a
+			// snapshot) taken after further commits
+			if t, ok := sn.rd.(*fox.Txn); ok && sn.seenWrites > 0 && src.Intn("derive", 3) == 2 {
+				res.Checks++
+				if s2 := t.Snapshot(); s2 == nil {
+					res.fail("C03/snapshot-wrong", "Snapshot() of the %s snapshot taken %s returned nil", sn.kind, sn.taken)
+					return
+				} else if d := world.DiffLines((&snapshot{rd: s2}).observe(pool, prefixes, probes), sn.first); d != "" {
+					res.fail("C03/snapshot-wrong", "a Snapshot() taken after %s from the %s snapshot taken %s differs from it: %s (history %v)", where, sn.kind, sn.taken, d, history)
+					return
+				}
+				res.inc("views_derived_from_a_kept_snapshot")
+			}
 		}
 	}
 	snap := func(where string, rd world.Reader, wtxn *fox.Txn, set *model.Set) {
